@@ -26,6 +26,8 @@ def systems(tier):
         E.SystemSpec([(M(S("[]", ["[<]CC[>]", "[<]CO[>]"], ["[<][H]", "[>]F"], "[]", g(30))), 60), (M("CCN"), 40)], 130.0, "endstart-polymer"),
         E.SystemSpec([(M("C[>]", S("[>]", ["[<]CC[>]"], [], "[<]", g(25)), S("[>]", ["[<]CO[>]", "[<]CS[>]"], [], "[<]", g(25)), "[<]F"), 100)], 200.0, "diblock-only"),
         E.SystemSpec([(M("CC"), 0), (M("CCC"), 30), (M("CCCC"), 70)], 120.0, "zero-percent-first"),
+        # residue numbers run over the whole system: the second component's suffix is the 30th token
+        E.SystemSpec([(M("C1CCOC1"), 10), (M("C[>]", S("[>]", ["[<]CC[>]"], ["[<]" + "C" * k + "F" for k in range(1, 27)], "[<]", g(40)), "[<]O"), 90)], 150.0, "solvent-polymer-30-tokens"),
     ]
     # a component that cannot be fully generated: the iteration must refuse, never yield it
     out.append(E.SystemSpec([(M("CC"), 50), (M("C[>]", S("[>]", ["[<]CC[>]"], [], "[<]", g(30))), 50)], 100.0, "open-member"))
